@@ -1,1 +1,249 @@
 // Kani contract harnesses for /repo/arrow-array/src/array/byte_array.rs (child module: sees private items via super::)
+use super::*;
+#[path = "/verif/kani/support/spec.rs"]
+mod spec;
+use spec::*;
+use crate::types::{BinaryType, Utf8Type};
+use arrow_buffer::{BooleanBuffer, Buffer, NullBuffer, OffsetBuffer, ScalarBuffer};
+
+/// Well-formed UTF-8 byte sequence, written from Table 3-7 of the Unicode Standard ("Well-Formed
+/// UTF-8 Byte Sequences", the definition RFC 3629 and the Arrow format refer to). Independent of
+/// core::str::from_utf8.
+fn utf8_wf(s: &[u8]) -> bool {
+    let mut i = 0;
+    while i < s.len() {
+        let b0 = s[i];
+        if b0 < 0x80 {
+            i += 1;
+            continue;
+        }
+        // (number of continuation bytes, admissible range of the first continuation byte)
+        let (n, lo, hi): (usize, u8, u8) = match b0 {
+            0xC2..=0xDF => (1, 0x80, 0xBF),
+            0xE0 => (2, 0xA0, 0xBF),
+            0xE1..=0xEC => (2, 0x80, 0xBF),
+            0xED => (2, 0x80, 0x9F),
+            0xEE..=0xEF => (2, 0x80, 0xBF),
+            0xF0 => (3, 0x90, 0xBF),
+            0xF1..=0xF3 => (3, 0x80, 0xBF),
+            0xF4 => (3, 0x80, 0x8F),
+            _ => return false,
+        };
+        if s.len() - i <= n { return false; }
+        if s[i + 1] < lo || s[i + 1] > hi { return false; }
+        let mut k = 2;
+        while k <= n {
+            if s[i + k] < 0x80 || s[i + k] > 0xBF { return false; }
+            k += 1;
+        }
+        i += n + 1;
+    }
+    true
+}
+
+fn zeros(bm: &[u8], off: usize, len: usize) -> usize {
+    let mut n = 0;
+    let mut i = 0;
+    while i < len {
+        if !bit(bm, off + i) { n += 1; }
+        i += 1;
+    }
+    n
+}
+
+/// offsets satisfying the (already validated) OffsetBuffer invariant: non-negative, monotone
+fn any_offsets<const K: usize>() -> [i32; K] {
+    let o: [i32; K] = kani::any();
+    kani::assume(o[0] >= 0);
+    let mut i = 1;
+    while i < K {
+        kani::assume(o[i - 1] <= o[i]);
+        i += 1;
+    }
+    o
+}
+
+// Contract (C09, accept => well-formed): GenericByteArray::<Utf8>::try_new(offsets, values, nulls) with
+// 3 symbolic offsets (a valid OffsetBuffer: non-negative, monotone — otherwise arbitrary, in particular
+// possibly beyond the values), 4 symbolic value bytes and an optional validity bitmap of symbolic length
+// <= 4 at bit offset 5. If it returns Ok then, by the Arrow columnar format:
+//   last offset <= values.len();  every value bytes[o[i]..o[i+1]] is well-formed UTF-8 (utf8_wf above:
+//   in particular no value starts or ends inside a code point);  validity length == number of values;
+// and the accessors read back the model: len, value(i) (bytes), value_length(i), is_null(i), null_count.
+// @unit name=utf8_try_new_sound props=C09,C01 kind=bounded bound=offsets=3_value_bytes=4_validity<=4_bits fns=GenericByteArray::try_new,GenericStringType::validate,GenericByteArray::value,GenericByteArray::value_length timeout=900 mem=4
+#[kani::proof]
+#[kani::unwind(8)]
+#[kani::stub(alloc::fmt::format, stub_format)]
+fn utf8_try_new_sound() {
+    let offs = any_offsets::<3>();
+    let bytes: [u8; 4] = kani::any();
+    let bm: [u8; 2] = kani::any();
+    let with_nulls: bool = kani::any();
+    let boff: usize = 5;
+    let nlen: usize = kani::any();
+    kani::assume(nlen <= 4);
+    let ob = unsafe { OffsetBuffer::new_unchecked(ScalarBuffer::new(Buffer::from_slice_ref(&offs), 0, 3)) };
+    let nulls = if with_nulls {
+        Some(NullBuffer::new(BooleanBuffer::new(Buffer::from_slice_ref(&bm), boff, nlen)))
+    } else {
+        None
+    };
+    let r = GenericByteArray::<Utf8Type>::try_new(ob, Buffer::from_slice_ref(&bytes), nulls);
+    if let Ok(a) = &r {
+        assert!(offs[2] as usize <= 4);
+        assert!(!with_nulls || nlen == 2);
+        assert!(a.len() == 2);
+        assert!(a.null_count() == if with_nulls { zeros(&bm, boff, 2) } else { 0 });
+        let mut i = 0;
+        while i < 2 {
+            let v = &bytes[offs[i] as usize..offs[i + 1] as usize];
+            assert!(utf8_wf(v));
+            assert!(a.value(i).as_bytes() == v);
+            assert!(a.value_length(i) == offs[i + 1] - offs[i]);
+            assert!(a.is_null(i) == (with_nulls && !bit(&bm, boff + i)));
+            i += 1;
+        }
+    }
+    kani::cover!(r.is_ok() && offs[0] == 1 && offs[1] == 3 && offs[2] == 4 && bytes[1] >= 0x80);
+    kani::cover!(r.is_ok() && offs[0] == 0 && offs[1] == 4 && bytes[0] == 0xF0);
+    kani::cover!(r.is_ok() && with_nulls);
+    kani::cover!(r.is_err() && offs[2] <= 4 && utf8_wf(&bytes));      // rejected: split code point or bitmap
+    kani::cover!(r.is_err() && offs[2] > 4);
+    std::mem::forget(r);
+}
+
+// Contract (C09, no over-rejection): if the whole values buffer is well-formed UTF-8, the last offset is
+// within it, every offset falls on a code-point boundary (i.e. each value is itself well-formed) and the
+// validity bitmap, if any, has one bit per value, then try_new returns Ok.
+// NOTE (documented strictness, not a defect): the constructor validates the *whole* values buffer, so
+// ill-formed bytes that no value references (before the first / after the last offset) are rejected too;
+// the precondition therefore asks for a well-formed buffer, which is stronger than the format requires.
+// @unit name=utf8_try_new_accepts props=C09 kind=bounded bound=offsets=3_value_bytes=4 fns=GenericByteArray::try_new,GenericStringType::validate timeout=900 mem=4
+#[kani::proof]
+#[kani::unwind(8)]
+#[kani::stub(alloc::fmt::format, stub_format)]
+fn utf8_try_new_accepts() {
+    let offs = any_offsets::<3>();
+    let bytes: [u8; 4] = kani::any();
+    kani::assume(offs[2] <= 4);
+    kani::assume(utf8_wf(&bytes));
+    kani::assume(utf8_wf(&bytes[..offs[0] as usize]));
+    kani::assume(utf8_wf(&bytes[offs[0] as usize..offs[1] as usize]));
+    kani::assume(utf8_wf(&bytes[offs[1] as usize..offs[2] as usize]));
+    let bm: [u8; 1] = kani::any();
+    let with_nulls: bool = kani::any();
+    let ob = unsafe { OffsetBuffer::new_unchecked(ScalarBuffer::new(Buffer::from_slice_ref(&offs), 0, 3)) };
+    let nulls = if with_nulls {
+        Some(NullBuffer::new(BooleanBuffer::new(Buffer::from_slice_ref(&bm), 0, 2)))
+    } else {
+        None
+    };
+    let r = GenericByteArray::<Utf8Type>::try_new(ob, Buffer::from_slice_ref(&bytes), nulls);
+    assert!(r.is_ok());
+    kani::cover!(offs[0] == 0 && offs[1] == 2 && offs[2] == 4 && bytes[0] >= 0xC2);
+    kani::cover!(offs[1] == 3 && bytes[0] == 0xE2 && offs[0] == 0);
+    kani::cover!(with_nulls);
+    std::mem::forget(r);
+}
+
+// Contract (C09, both directions): GenericByteArray::<Binary>::try_new(offsets, values, nulls) with 4
+// symbolic offsets (valid OffsetBuffer), a values buffer that is a window of symbolic length <= 6 and an
+// optional validity bitmap of symbolic length <= 4:  Ok <=> last offset <= values.len() /\ (no bitmap \/
+// bitmap length == 3). On Ok the accessors read back the model (value bytes, value_length, nulls).
+// @unit name=binary_try_new_iff props=C09,C01 kind=bounded bound=offsets=4_value_bytes<=6_validity<=4_bits fns=GenericByteArray::try_new,GenericBinaryType::validate,GenericByteArray::value,GenericByteArray::value_length timeout=900 mem=4
+#[kani::proof]
+#[kani::unwind(8)]
+#[kani::stub(alloc::fmt::format, stub_format)]
+fn binary_try_new_iff() {
+    let offs = any_offsets::<4>();
+    let bytes: [u8; 6] = kani::any();
+    let vlen: usize = kani::any();
+    kani::assume(vlen <= 6);
+    let bm: [u8; 2] = kani::any();
+    let with_nulls: bool = kani::any();
+    let boff: usize = 5;
+    let nlen: usize = kani::any();
+    kani::assume(nlen <= 4);
+    let ob = unsafe { OffsetBuffer::new_unchecked(ScalarBuffer::new(Buffer::from_slice_ref(&offs), 0, 4)) };
+    let nulls = if with_nulls {
+        Some(NullBuffer::new(BooleanBuffer::new(Buffer::from_slice_ref(&bm), boff, nlen)))
+    } else {
+        None
+    };
+    let values = Buffer::from_slice_ref(&bytes).slice_with_length(0, vlen);
+    let r = GenericByteArray::<BinaryType>::try_new(ob, values, nulls);
+    assert!(r.is_ok() == (offs[3] as usize <= vlen && (!with_nulls || nlen == 3)));
+    if let Ok(a) = &r {
+        assert!(a.len() == 3);
+        assert!(a.null_count() == if with_nulls { zeros(&bm, boff, 3) } else { 0 });
+        let mut i = 0;
+        while i < 3 {
+            let v = &bytes[offs[i] as usize..offs[i + 1] as usize];
+            assert!(a.value(i) == v);
+            assert!(a.value_length(i) == offs[i + 1] - offs[i]);
+            assert!(a.is_null(i) == (with_nulls && !bit(&bm, boff + i)));
+            i += 1;
+        }
+    }
+    kani::cover!(r.is_ok() && with_nulls && offs[0] > 0 && offs[3] as usize == vlen && offs[1] > offs[0]);
+    kani::cover!(r.is_err() && offs[3] as usize == vlen + 1);
+    kani::cover!(r.is_err() && with_nulls && nlen == 4 && offs[3] == 0);
+    std::mem::forget(r);
+}
+
+// Contract (C01, C02): slice(OFF, LEN) of a 3-row Binary array (offsets, bytes, validity symbolic;
+// validity optional) denotes exactly rows [OFF, OFF+LEN) of the model: len, value(i) bytes,
+// value_length(i), is_null(i); null_count recomputed exactly; value_offsets() of the slice is the
+// window OFF..=OFF+LEN of the parent's offsets (LEN+1 entries, still monotone and inside the values).
+macro_rules! binary_slice {
+    ($name:ident, $off:expr, $len:expr) => {
+        #[kani::proof]
+        #[kani::unwind(8)]
+        #[kani::stub(alloc::fmt::format, stub_format)]
+        fn $name() {
+            const OFF: usize = $off;
+            const LEN: usize = $len;
+            let offs = any_offsets::<4>();
+            kani::assume(offs[3] <= 6);
+            let bytes: [u8; 6] = kani::any();
+            let bm: [u8; 2] = kani::any();
+            let with_nulls: bool = kani::any();
+            let boff: usize = 5;
+            let ob = unsafe { OffsetBuffer::new_unchecked(ScalarBuffer::new(Buffer::from_slice_ref(&offs), 0, 4)) };
+            let nulls = if with_nulls {
+                Some(NullBuffer::new(BooleanBuffer::new(Buffer::from_slice_ref(&bm), boff, 3)))
+            } else {
+                None
+            };
+            let a = unsafe { GenericByteArray::<BinaryType>::new_unchecked(ob, Buffer::from_slice_ref(&bytes), nulls) };
+            let s = a.slice(OFF, LEN);
+            assert!(s.len() == LEN);
+            assert!(s.value_offsets().len() == LEN + 1);
+            assert!(s.null_count() == if with_nulls { zeros(&bm, boff + OFF, LEN) } else { 0 });
+            let mut i = 0;
+            while i <= LEN {
+                assert!(s.value_offsets()[i] == offs[OFF + i]);
+                i += 1;
+            }
+            i = 0;
+            while i < LEN {
+                let v = &bytes[offs[OFF + i] as usize..offs[OFF + i + 1] as usize];
+                assert!(s.value(i) == v);
+                assert!(s.value_length(i) as usize == v.len());
+                assert!(s.is_null(i) == (with_nulls && !bit(&bm, boff + OFF + i)));
+                i += 1;
+            }
+            assert!(a.len() == 3);
+            kani::cover!(with_nulls && offs[OFF] > 0);
+            kani::cover!(!with_nulls && offs[3] == 6 && offs[0] == 0);
+            std::mem::forget(s);
+            std::mem::forget(a);
+        }
+    };
+}
+// @unit name=binary_slice_1_2 props=C01,C02 kind=bounded bound=rows=3_value_bytes=6_window=(1,2) fns=GenericByteArray::slice,GenericByteArray::value,GenericByteArray::value_length timeout=900 mem=4 tier=thorough note=not_confirmed_at_checkpoint
+binary_slice!(binary_slice_1_2, 1, 2);
+// @unit name=binary_slice_2_1 props=C01,C02 kind=bounded bound=rows=3_value_bytes=6_window=(2,1) fns=GenericByteArray::slice,GenericByteArray::value,GenericByteArray::value_length timeout=900 mem=4 tier=thorough note=not_confirmed_at_checkpoint
+binary_slice!(binary_slice_2_1, 2, 1);
+// @unit name=binary_slice_3_0 props=C01,C02 kind=bounded bound=rows=3_value_bytes=6_window=(3,0) fns=GenericByteArray::slice,GenericByteArray::value,GenericByteArray::value_length timeout=900 mem=4 tier=thorough note=not_confirmed_at_checkpoint
+binary_slice!(binary_slice_3_0, 3, 0);
